@@ -215,6 +215,10 @@ def c01(rep, tier):
                 from .props_vm import growth_of
                 gr = growth_of(vm, other[0]) if len(other) == 1 else None
                 okd = gr is not None and vm.operand_of(gr[0]) == dspec['append_zeros'] and gr[1].term == C(0)
+                if not other:
+                    # nothing appended: fine on a path whose guards bound the count by zero
+                    cnt = [t for t in s.p.refine if vm.operand_of(t) == dspec['append_zeros']]
+                    okd = bool(cnt) and s.p.refine[cnt[0]][1] <= 0
                 if not okd:
                     why.append('contract: append %s zero words; found %s' % (dspec['append_zeros'], [o[0] for o in other]))
             elif dspec == 'shrink_to_popped_frame':
@@ -411,8 +415,16 @@ def c01(rep, tier):
                 'Test(%s) / JmpC(%s) do not use the evaluated operands' % (', '.join(show(a) for a in tst[0].e['args']), show(jc[0].e['args'][1])), W(m, di))
         srcs = sorted(tuple(field_chain(x.e['args'][1])[1]) for x in dvs)
         E.check(srcs == [('left', 'left'), ('left', 'right')], 'dispatchIf: operands', 'EQ node children', 'compared values are %s' % srcs, W(m, di))
-        nm = m.origin(di, strip_casts(jc[0].e['args'][0])['args'][0]) if is_call(strip_casts(jc[0].e['args'][0]), '::operator[]') else None
-        E.check(nm is not None and 'c->right->left->tok' in show(nm), 'dispatchIf: target', 'jumps to the mark named by the GOTO child', 'jump target is %s' % show(nm), W(m, di))
+        lab = m.origin(di, jc[0].e['args'][0])
+        nm = None
+        if is_call(strip_casts(lab), '::operator[]'):
+            nm = m.origin(di, strip_casts(lab)['args'][0])
+        elif lab is not None and lab.get('k') == 'call' and lab.get('callee_in_repo'):
+            nm = lab      # a helper that maps the name to its label: the name must be its argument
+        if nm is None:
+            E.unknown('dispatchIf: target', 'cannot see which mark name the jump label %s is looked up under' % show(lab), W(m, di))
+        else:
+            E.check('c->right->left->tok' in show(nm), 'dispatchIf: target', 'jumps to the mark named by the GOTO child', 'jump target is looked up under %s' % show(nm), W(m, di))
     else:
         E.unknown('dispatchIf', 'lowering shape not recognised')
     # PROGRAM
@@ -480,12 +492,31 @@ def c01(rep, tier):
                 signs[name] = ('-' if neg else '+', ev)
             elif guarded(g, ev, lambda c, name=name: (c.get('k') in ('call', 'bin') and c.get('op') == '==' and name in show(c)), False) and name == '__INC__':
                 signs.setdefault('__DEC__', ('-' if neg else '+', ev))
+    if not signs:
+        # Add(tgt, arg0, name == "__INC__" ? c : -c)
+        for ev in adds:
+            cst = m.origin(dvf, ev.e['args'][2])
+            cst = strip_casts(cst) if cst is not None else None
+            if cst is not None and cst.get('k') == 'cond':
+                cnd = show(cst['c'])
+                def sign_of(x):
+                    x = strip_casts(x)
+                    return '-' if (x.get('k') == 'un' and x['op'] == '-') else '+'
+                if '__INC__' in cnd and '==' in cnd:
+                    signs['__INC__'] = (sign_of(cst['t']), ev)
+                    signs['__DEC__'] = (sign_of(cst['e']), ev)
+                elif '__DEC__' in cnd and '==' in cnd:
+                    signs['__DEC__'] = (sign_of(cst['t']), ev)
+                    signs['__INC__'] = (sign_of(cst['e']), ev)
+    if not signs:
+        E.unknown('dispatchValue/built-ins', 'the lowering of the built-in +/- was not recognised')
     okb = signs.get('__INC__', ('?',))[0] == '+' and signs.get('__DEC__', ('?',))[0] == '-'
     if okb:
         for name, (sg, ev) in signs.items():
             a1 = strip_casts(ev.e['args'][1])
             okb = okb and is_call(a1, '::operator[]') and strip_casts(a1['args'][0]).get('v') == 0 and m.same_var(ev.e['args'][0], {'k': 'ref', 'd': dvf['params'][2]['d']})
-    E.check(okb, 'dispatchValue/built-ins', '__INC__ -> Add(tgt, arg0, +c), __DEC__ -> Add(tgt, arg0, -c)', 'built-in signs: %s' % {k: v[0] for k, v in signs.items()}, W(m, dvf))
+    if signs:
+        E.check(okb, 'dispatchValue/built-ins', '__INC__ -> Add(tgt, arg0, +c), __DEC__ -> Add(tgt, arg0, -c)', 'built-in signs: %s' % {k: v[0] for k, v in signs.items()}, W(m, dvf))
     lc = find_factory_ev(m, g, 'LoadConstant')
     E.check(len(lc) == 1 and m.same_var(lc[0].e['args'][0], {'k': 'ref', 'd': dvf['params'][2]['d']}) and 'strToInt' in show(m.origin(dvf, lc[0].e['args'][1])),
             'dispatchValue/NUMBER', 'LoadConstant(tgt, value of the literal)', 'literal lowered as %s' % (show(lc[0].e) if lc else None), W(m, dvf))
@@ -500,8 +531,19 @@ def c01(rep, tier):
     dg = m.fn('dispatchGoto')
     g = m.cfg(dg)
     jm = find_factory_ev(m, g, 'Jmp')
-    okg = len(jm) == 1 and is_call(strip_casts(jm[0].e['args'][0]), '::operator[]') and 'c->left->tok' in show(m.origin(dg, strip_casts(jm[0].e['args'][0])['args'][0]))
-    E.check(okg, 'dispatchGoto', 'Jmp(mark named by node->left)', 'goto lowered wrongly', W(m, dg))
+    if len(jm) != 1:
+        E.unknown('dispatchGoto', 'lowering shape not recognised')
+    else:
+        lab = m.origin(dg, jm[0].e['args'][0])
+        nm = None
+        if is_call(strip_casts(lab), '::operator[]'):
+            nm = m.origin(dg, strip_casts(lab)['args'][0])
+        elif lab is not None and lab.get('k') == 'call' and lab.get('callee_in_repo'):
+            nm = lab
+        if nm is None:
+            E.unknown('dispatchGoto', 'cannot see which mark name the jump label %s is looked up under' % show(lab), W(m, dg))
+        else:
+            E.check('c->left->tok' in show(nm), 'dispatchGoto', 'Jmp(mark named by node->left)', 'goto jumps to the mark looked up under %s' % show(nm), W(m, dg))
     # ------------------------------------------------------------------ f
     F = rep.rule('C01.f', 'a temporary register is not used after it was released', floor=5)
     for f in m.all_fns():
@@ -533,6 +575,7 @@ def c01(rep, tier):
                 return o[1]
             return None
         vals = [fillval(o) for o in dops]
-        okz = bool(dops) and all(v is not None and v.term == C(0) for v in vals) and all(o[0] in ('append_n', 'resize', 'push') for o in dops)
+        cnt0 = [t for t in s.p.refine if vm.operand_of(t) == 'prepare.count' and s.p.refine[t][1] <= 0]
+        okz = (bool(dops) or bool(cnt0)) and all(v is not None and v.term == C(0) for v in vals) and all(o[0] in ('append_n', 'resize', 'push') for o in dops)
         G.check(okz, 'executeSingle/PREPARE_EXEC', 'appends zero words only',
                 'new frame words are %s' % ([t_show(v.term) if v is not None else '?' for v in vals]), WV)
